@@ -14,6 +14,8 @@
 (*   "err"    the reader must return an error (no frame),                             *)
 (*   "either" the draft leaves it open / is ambiguous (gray): no accept/reject        *)
 (*            verdict; panics, allocation and the boundary rule still apply.          *)
+(*   "serr"   like "err" (no frame), and the connection stays usable: the frames     *)
+(*            that follow keep their own verdict (stream error, block fully consumed). *)
 (*   "refused" (mode rt only) the writer must return an error and leave no trace:     *)
 (*            no octet on the wire, compression context untouched -- all later frames *)
 (*            of the sequence keep their own verdict.                                 *)
@@ -122,6 +124,12 @@ RtRefused ==
         [Base EXCEPT !.mode = "rt", !.k = "data", !.sid = "hi"]}            \* control bit set
 RtShapes == RtHdr \cup RtOther \cup RtRefused
 
+\* raw header frames the READER must reject with a stream error, usable inside a sequence
+\* (illegal name in pair 1 with a further pair behind it, or in the last pair)
+RdRejected(K) == {s \in RawHdrBlock : s.k \in K /\ s.bm = "none" /\ s.np >= 1 /\ s.v1 = "v"
+                                      /\ (s.np = 2 => s.v2 = "v")
+                                      /\ (IF s.np = 1 THEN {s.n1} ELSE {s.n1, s.n2}) \cap {"uc", "empty", "dup"} # {}}
+
 Shapes == RawShapes \cup RtShapes
 
 ---------------------------------------------------------------------------
@@ -138,8 +146,12 @@ GrayVals  == {"nul0"}
 HardBM    == {"cntmore", "cnt1025", "cnthuge", "namebig", "namemax", "valbig", "valmax",
               "truncname", "truncval", "notzlib"}
 
+\* "serr": the block is structurally intact, only its names are illegal -- a STREAM error (2.6.10,
+\* 2.4.2): the frame is refused, but the session goes on, so the reader must have consumed the whole
+\* block (the zlib context is shared by all later header blocks of the connection).
 PHdr(s) ==
-  IF s.len # "exact" \/ s.bm \in HardBM \/ Names(s) \cap HardNames # {} THEN "err"
+  IF s.len # "exact" \/ s.bm \in HardBM THEN "err"
+  ELSE IF Names(s) \cap HardNames # {} THEN (IF s.bm = "none" THEN "serr" ELSE "err")
   ELSE IF s.bm = "trail" \/ Names(s) \cap GrayNames # {} \/ Vals(s) \cap GrayVals # {} \/ s.sid = "zero"
        THEN "either" ELSE "ok"
 
@@ -185,7 +197,7 @@ MHdr(s) ==
   ELSE IF s.bm \in {"cnt1025", "cnthuge"} THEN "err"    \* > MaxNumHeaders
   ELSE IF s.len = "cut" THEN "err"                      \* decompressor hits the limit
   ELSE IF s.bm \in {"namebig", "namemax", "valbig", "valmax", "truncname", "truncval", "cntmore"} THEN "err"
-  ELSE IF Names(s) \cap HardNames # {} THEN "err"
+  ELSE IF Names(s) \cap HardNames # {} THEN (IF s.bm = "none" THEN "serr" ELSE "err")  \* error kept, block finished
   ELSE IF ForbiddenHit(s) THEN "err"                    \* InvalidHeaderPresent
   ELSE IF s.sid = "zero" THEN "err"
   ELSE "ok"                                            \* incl. bm = trail (not noticed)
